@@ -2,13 +2,14 @@
 # usage: seedtest.sh <Cxx> [check ids...]   — verifies a seeded mutant and runs checks against it
 # needs /verif/seeded/<Cxx>/{patch.diff,meta.json,demo/}
 set -u
-P=$1; shift
+N=$1; shift          # directory under /verif/seeded: Cxx or Cxx_2 (second round)
+P=${N%%_*}
 CHECKS=${@:-$P}
 export GOFLAGS=-mod=mod GOPROXY=off GOSUMDB=off GOTOOLCHAIN=local
 S=/tmp/seed_$P/_seed
-D=/verif/seeded/$P
+D=/verif/seeded/$N
 # self-contained: everything comes from /verif/seeded/<Cxx> (patch.diff, meta.json with demo_files, demo/)
-W=/tmp/mutwork_$P
+W=/tmp/mutwork_$N
 git -C /repo worktree remove --force $W >/dev/null 2>&1; git -C /repo worktree add -q --detach $W HEAD
 cd $W
 if ! git apply --check $D/patch.diff 2>/dev/null; then echo "PATCH-DOES-NOT-APPLY to current HEAD"; git apply --3way $D/patch.diff 2>&1 | tail -2; else git apply $D/patch.diff; fi
@@ -21,7 +22,7 @@ for base,dst in json.load(open(D+'/meta.json')).get('demo_files',{}).items():
     os.makedirs(os.path.dirname(os.path.join(W,dst)),exist_ok=True); shutil.copy(os.path.join(D,'demo',base),os.path.join(W,dst))
 PY
 echo "untracked demo files: $(git status --porcelain | grep '^??' | awk '{print $2}' | tr '\n' ' ')"
-CMD=$(python3 -c "import json;print(json.load(open('$D/meta.json'))['demo_command'])" | sed "s#/tmp/seed_$P#$W#g" | sed 's/&amp;/\&/g' | sed 's/   (.*$//' )
+CMD=$(python3 -c "import json;print(json.load(open('$D/meta.json'))['demo_command'])" | sed "s#/tmp/seed2\?_$P#$W#g" | sed 's/&amp;/\&/g' | sed 's/   (.*$//' )
 echo "demo cmd: $CMD"
 ( eval "$CMD" ) > $D/demo_with_patch.log 2>&1; echo "demo with patch: rc=$?"
 git apply -R $D/patch.diff ; ( eval "$CMD" ) > $D/demo_without_patch.log 2>&1; echo "demo without patch: rc=$?"; git apply $D/patch.diff
